@@ -16,7 +16,7 @@ what every recording service was given, what a service added afterwards is given
 (= last_data), and who receives one more publish (= who is registered).  The observed
 quiescent states are handed back to TLC (Judge_AddrLookupPub.tla), which evaluates the
 spec's own invariants on them; an observation on which they are false is a violation.
-An actor found asleep on a lock instead of at its gate means the implementation serialises
+An actor found asleep (60 ms) instead of at its gate means the implementation serialises
 more than the model (that is what the proposed fix does): the rest of the word runs freely
 and the quiescent state is judged all the same.  For completely forced words the observed
 state must also equal the model's state for that word (otherwise: non-conformance, exit 2).
@@ -163,8 +163,10 @@ def judge_config(ctx, cfg, words, cases, obs, tag):
     nblocked = 0
     for k, (w, c, o) in enumerate(ok, start=1):
         free = w is None
-        add_race, overlap = (len(news) > 0, len(pubs) > 1) if free else schedule_class(cfg, c["word"])
         forced_all = (not free) and o["blocked"] is None and o["forced"] == len(c["word"])
+        # the input class is known only for words that were really forced; anything that (partly) ran freely may have
+        # taken either racy shape if the actors for it exist
+        add_race, overlap = schedule_class(cfg, c["word"]) if forced_all else (len(news) > 0 and len(pubs) > 0, len(pubs) > 1)
         nblocked += 0 if (forced_all or free) else 1
         ctx.count(case_key=[list(pubs), list(news), list(clears), list(setters), ninit, filt, [[s["a"], s["step"]] for s in c["word"]]],
                   nontrivial=True)
@@ -269,5 +271,5 @@ def run(ctx):
     ctx.cov["rule"] = ("every complete word (interleaving of sub-steps) of the AddrLookupPub spec for the configured actor sets, "
                        "forced on real threads; every observed quiescent state judged by TLC")
     ctx.cov["exhaustive"] = not ctx.cov.get("exhaustive_except_sampled_configs", False)
-    ctx.assume("a thread that is past its gate and asleep for 25 ms is blocked on a lock of the code under test")
+    ctx.assume("a thread that is past its gate and asleep for 60 ms is blocked on a lock of the code under test")
     ctx.assume("std::sync::RwLock admits a new reader while another reader holds the lock and no writer waits")
